@@ -24,6 +24,7 @@ macro_rules! for_props {
         #[cfg(not(huginn_net_verif_sched))]
         {
             $m!(props::c08::C08);
+            $m!(props::c09::C09);
             $m!(props::c17::C17);
             $m!(props::c19::C19);
         }
